@@ -219,7 +219,7 @@ def coverage_extra(tier, classes):
                    if k.startswith(prefix + "=") and k.endswith("/" + tag))
     e1, e2 = enum(1), enum(0)
     done1, done2 = total("enumn", "single"), total("enumn", "full")
-    return dict(exhaustive=[
+    return dict(enumerated_spaces=[
         dict(space="all skeletons with <= 2 nesting levels, <= 3 branches per construct (IF ladder or SWITCH, "
                    "conditional branches + default), at most one level-1 branch holding a nested construct, "
                    "x all truth assignments", size=e1.total, executed=done1, exhaustive=done1 == e1.total,
